@@ -1,8 +1,12 @@
 import NdnModel.CodecIO
 import NdnModel.Packet
+import NdnModel.CodecStrict
 /-  C07 protocol:
     `C07 pkt <schemas> <outerType> <ic 0|1> <needName 0|1> <forbidTypes a,b|.> <hex>` → `ok <values>` | `err <PyErr>`
-    `C07 name <hex>`                                                            → `ok n(...)`   | `err <PyErr>` -/
+    `C07 name <hex>`                                                            → `ok n(...)`   | `err <PyErr>`
+    `C07 strict <same arguments as pkt>` (the strict decoder `strictDecodePacket`)
+                                         → `ok <values>` | `rej overrun-<kind>` | `rej <PyErr>`
+    `C07 both <same arguments as pkt>`   → `<pkt answer> <strict answer>` -/
 namespace Ndn.Drv.C07
 open Ndn Ndn.Codec Ndn.Packet
 
@@ -17,8 +21,28 @@ partial def hideMarker : Schema → Value → Value
   | _, v => v
 end
 
+def pktAnswer (fs : List Schema) (o : Nat) (ic nn : Bool) (fb : List Nat) (w : Bytes) : String :=
+  match decodePacket fs o ic nn fb w with
+  | .ok vs => "ok " ++ showValues (hideMarkers fs vs)
+  | .error e => "err " ++ e.name
+
+def strictAnswer (fs : List Schema) (o : Nat) (ic nn : Bool) (fb : List Nat) (w : Bytes) : String :=
+  match strictDecodePacket fs o ic nn fb w with
+  | .ok vs => "ok " ++ showValues (hideMarkers fs vs)
+  | .error (.overrun k) => "rej overrun-" ++ k.text
+  | .error (.py e) => "rej " ++ e.name
+
 def handle (args : List String) : String :=
   match args with
+  | ["strict", ss, outer, ic, nn, forbid, hx] =>
+    match readSchemas ss, outer.toNat?, natList forbid, fromHex hx with
+    | some fs, some o, some fb, some w => strictAnswer fs o (ic == "1") (nn == "1") fb w
+    | _, _, _, _ => "bad-op"
+  | ["both", ss, outer, ic, nn, forbid, hx] =>
+    match readSchemas ss, outer.toNat?, natList forbid, fromHex hx with
+    | some fs, some o, some fb, some w =>
+      pktAnswer fs o (ic == "1") (nn == "1") fb w ++ " " ++ strictAnswer fs o (ic == "1") (nn == "1") fb w
+    | _, _, _, _ => "bad-op"
   | ["pkt", ss, outer, ic, nn, forbid, hx] =>
     match readSchemas ss, outer.toNat?, natList forbid, fromHex hx with
     | some fs, some o, some fb, some w =>
